@@ -19,6 +19,7 @@ from .. import alpha, common, e1, e4
 cobyqa = common.bind_repo()
 
 ID = "C11"
+REPLAY_ONCE = True
 LEVEL = "model_checking"
 ASSUMPTIONS = [
     "threads: 2 (3 in thorough) concurrent minimize calls under a cooperative scheduler, preemption bound 1 (2 in "
